@@ -77,7 +77,7 @@ class GraphModel(Analysis):
 
     def on_store_name(self, ip, node, name, val, st, fr):
         if isinstance(node, ast.AugAssign):
-            self.ev(ip, 'AUG', node, st, fr, name=name, val=val, marked=st.a('m'))
+            self.ev(ip, 'AUG', node, st, fr, name=name, val=val, marked=st.a('m'), depth=fr.depth)
             snap = st.a('snap')
             if snap and snap[1] == name and isinstance(node.op, ast.Add) and fr.depth == 0:
                 # the counter has moved since its value was saved
@@ -93,6 +93,14 @@ class GraphModel(Analysis):
 
     def on_branch(self, ip, node, term, val, st, fr):
         snap = st.a('snap')
+        if snap and isinstance(node, ast.BoolOp) and term[0] == 'cmp' and term[1] in ('==', '!='):
+            # `flag and counter == snapshot` with the flag known: the decision is the comparison's
+            cands = [n for n in node.values if isinstance(n, ast.Compare) and len(n.ops) == 1
+                     and isinstance(n.ops[0], (ast.Eq, ast.NotEq)) and isinstance(n.left, ast.Name)
+                     and isinstance(n.comparators[0], ast.Name)
+                     and {n.left.id, n.comparators[0].id} == {snap[0], snap[1]}]
+            if len(cands) == 1:
+                node = cands[0]
         if snap and isinstance(node, ast.Compare) and len(node.ops) == 1 and isinstance(node.left, ast.Name) \
                 and isinstance(node.comparators[0], ast.Name) and fr.depth == 0 \
                 and {node.left.id, node.comparators[0].id} == {snap[0], snap[1]} \
